@@ -942,8 +942,15 @@ func (j *judge) run(res *runResult) {
 		if !c.B && len(ctxVals) != 0 {
 			r.Fatal("request carries a before-request context header although none is configured: %+v", view)
 		}
-		if c.B && len(befs) == 1 && bj != nil && !bj.Failed {
-			own := bj.Token
+		own := "" // what before-request added for this request: known from its log entry, else from the calling operation
+		switch {
+		case !c.B || (bj != nil && bj.Failed):
+		case bj != nil:
+			own = bj.Token
+		case len(befs) > 1:
+			own = expTok
+		}
+		if own != "" {
 			switch {
 			case len(ctxVals) == 1 && ctxVals[0] == own:
 				r.Count("context_header_exact", 1)
@@ -1352,7 +1359,7 @@ func main() {
 		"history = Initialize, (listening stream up), ListTools, CallTool, ListPrompts, GetPrompt, ListResources, ReadResource, roots list_changed notification, SetRootsProvider, server-issued roots/list and unknown-method requests answered, TerminateSession (Streamable), Close; "+
 		"plus seeded random histories per configuration (quick 2, thorough 12: random order / repetition of operations, pushes and provider toggles). Every HTTP request recorded by the reference server is one evaluation, judged for static headers, session id, path, handler tag, before-request tag and context token. "+
 		"Second pass: before-request returns an error on its k-th invocation (every k of the canonical history in each of the 16 configurations with before-request x 2 clients; random histories: two seeded k each, in thorough every k for 4 of them per configuration): nothing may be sent and the issuing operation must return that error. "+
-		"Third pass (all 32 configurations x 2 clients; thorough adds 2 random histories each): Initialize #1 (token attempt-1) fails because the server answers its first request with 503, because before-request vetoes contexts carrying attempt-1 (configurations with before-request), or because the listener is closed (reopened on the same address afterwards); Initialize #2 on the same client object (token attempt-2), then the usual history. "+
+		"Third pass (all 32 configurations x 2 clients; thorough adds 2 random histories each): Initialize #1 (token attempt-1) fails because the server answers its first request with 503, because before-request vetoes contexts carrying attempt-1 (configurations with before-request), or because the server hangs up on every connection before reading a request (it lets connections through afterwards; mode name 'refuse'); Initialize #2 on the same client object (token attempt-2), then the usual history. "+
 		"Foreground requests must show the token of their own call, background requests the token of the handshake that succeeded, in the before-request log and in the handler log; a token of the failed attempt is reported as stale. Context tokens are unique per run, so a value leaking from an earlier, closed client of the same process would also be seen. "+
 		"A case is distinct by (client, request kind, configuration bitmask), vetoed cases by (client, vetoed request kind, bitmask), retry cases by (failure mode, client, request kind, bitmask); all judged requests count, conforming or not.",
 		[]string{
